@@ -127,6 +127,7 @@ type lifeCounters struct {
 	lifetimes, values, oneValue, twoValues, threePlus atomic.Int64
 	recvBeforeClose, recvAfterClose                   atomic.Int64
 	early, lazy, strSW, sizeChecks                    atomic.Int64
+	afterClose                                        atomic.Int64
 }
 
 type lifePair struct {
@@ -280,6 +281,12 @@ func (p *lifePair) writer() {
 		if !p.spin(r.done.Load, nil) {
 			return
 		}
+		where = "Status"
+		if why := probeClosed(pw.Status()); why != "" {
+			p.violate(afterCloseResult(why, "second goroutine asking after the consumer finished", r.w.total), prm)
+			return
+		}
+		p.cnt.afterClose.Add(1)
 		p.rounds.Add(1)
 		if i&255 == 255 {
 			flush()
@@ -291,7 +298,7 @@ func (p *lifePair) consumer() {
 	defer p.cfin.Store(true)
 	p.cgid.Store(goid())
 	var prev *lifeRound
-	var lifetimes, values, one, two, three, before, after int64
+	var lifetimes, values, one, two, three, before, after, probes int64
 	flush := func() {
 		c := p.cnt
 		c.lifetimes.Add(lifetimes)
@@ -301,7 +308,8 @@ func (p *lifePair) consumer() {
 		c.threePlus.Add(three)
 		c.recvBeforeClose.Add(before)
 		c.recvAfterClose.Add(after)
-		lifetimes, values, one, two, three, before, after = 0, 0, 0, 0, 0, 0, 0
+		c.afterClose.Add(probes)
+		lifetimes, values, one, two, three, before, after, probes = 0, 0, 0, 0, 0, 0, 0, 0
 	}
 	defer flush()
 	recv := make([]int, 0, 8)
@@ -350,6 +358,19 @@ func (p *lifePair) consumer() {
 		// the channel is closed: the writer has finished writing, its counters are stable
 		total := r.w.total
 		var bad result
+		// once Close() has returned, Status() asked again yields a closed channel (non-blocking receive)
+		if p.spin(r.closed.Load, nil) {
+			for q := 0; q < 2 && bad.key == ""; q++ {
+				if why := probeClosed(r.pw.Status()); why != "" {
+					bad = afterCloseResult(why, fmt.Sprintf("consumer asking again (call %d)", q+1), total)
+				}
+			}
+			probes += 2
+		}
+		if bad.key != "" {
+			p.violate(bad, prm)
+			return
+		}
 		for j, v := range recv {
 			if j > 0 && v < recv[j-1] {
 				bad = result{key: "recv:decreasing", exp: "received values non-decreasing", obs: fmt.Sprintf("received %v", recv)}
